@@ -576,6 +576,26 @@ func genRepr(c *GenCtx) {
 		}
 		c.add("repr", e, mk())
 	}
+	// the ends of the integer kinds (no float representations here: the float fast path is inexact up there by design)
+	big := []string{"127", "128", "-128", "-129", "255", "32767", "32768", "-32768", "65535", "2147483647", "2147483648", "-2147483648", "4294967295", "4294967296",
+		"9007199254740992", "9007199254740993", "9223372036854775807", "9223372036854775808", "-9223372036854775808", "18446744073709551615", "18446744073709551614", "1", "0", "-1", "2"}
+	exact := []string{"jnum", "dec", "i8", "i16", "i32", "i64", "int", "u8", "u16", "u32", "u64", "uint"}
+	tn := func(num string) string {
+		for tries := 0; tries < 12; tries++ {
+			if t := retype(num, r.Pick(exact)); t != "" {
+				return t
+			}
+		}
+		return num
+	}
+	for k := 0; k < n/3; k++ {
+		a, b, x := r.Pick(big), r.Pick(big), r.Pick(big)
+		e := r.Pick(exprs)
+		if strings.Contains(e, "pad_") {
+			continue
+		}
+		c.add("repr-ends", e, `{"a":`+tn(a)+`,"b":`+tn(b)+`,"arr":[`+tn(a)+`,`+tn(x)+`,`+tn(b)+`],"objs":[{"k":`+tn(a)+`,"i":0},{"k":`+tn(b)+`,"i":1},{"k":`+tn(x)+`,"i":2}]}`)
+	}
 }
 
 // ---------------------------------------------------------------------------------------------
@@ -692,6 +712,27 @@ func genLiterals(c *GenCtx) {
 		"\"\\uD83D\\u!!!!\"", "\"\\uD83Dxu0041\"", "\"\\ud83d\"", "\"\\u12\"", "\"\\x\"", "\"a\tb\"", "\"\"", "'abc", "\"abc", "`abc", "'a\\'", "\"\\uDC00\\uD83D\"", "\"\\ud83d\\ude00\"", "`\"\\ud83d\"`", "`\"\\udc00x\"`"}
 	for _, b := range bad {
 		c.add("lit-malformed", b, `{"":1,"a\tb":2}`)
+	}
+	// every character after a backslash, in each kind of literal and in each position (bounded-exhaustive)
+	var after []string
+	for ch := 0x20; ch < 0x7f; ch++ {
+		after = append(after, string(rune(ch)))
+	}
+	after = append(after, "\n", "\t", "\x00", "\x7f", "é", "€", "😀", "\u0301", "\ufffd", "\uffff", "\U00010000", "\u2028", "ÿ", "\u0080", "\xff", "\xc3", "\xa9")
+	for _, x := range after {
+		for _, q := range []string{"'", "\"", "`"} {
+			for _, pre := range []string{"", "a", "é"} {
+				for _, post := range []string{"", "b", "é", "\\\\"} {
+					body := pre + "\\" + x + post
+					if q == "`" {
+						c.add("lit-escape", "`\""+body+"\"`", "null")
+						c.add("lit-escape", "`"+body+"`", "null")
+					} else {
+						c.add("lit-escape", q+body+q, `{"":1,"a":2}`)
+					}
+				}
+			}
+		}
 	}
 }
 
